@@ -219,7 +219,10 @@ def r4(c):
                 okx = okx and x['variant'] == 'Err' and q.sem(b, x['rv']['a'][0]).kind == 'call' and q.sem(b, x['rv']['a'][0]).cs is pr
             else:
                 ev = q.exit_error(b, x)
-                okx = okx and q.exit_is_failure(b, x) and ev is not None and ev[0] == 'call' and ev[1] is pr
+                direct = ev is not None and ev[0] == 'call' and ev[1] is pr
+                # ... or handed on through a helper / adapter that rebuilds the Err (`.map_err(|e| { reset(); e })?`)
+                via = x['kind'] == 'call' and x['cs'].is_(q.FROM_RESIDUAL) and bool(x['cs'].args) and q.may_be_error_of(b, x['cs'].args[0], pr.callee)
+                okx = okx and q.exit_is_failure(b, x) and (direct or via)
         c.ob('err/returned', okx and any(cs.node in reach for cs in resets), 'the error returned is the parser\'s error, after reset', '', loc_of(b, e[1]))
     # Ok(None): read more, checked
     okn = [e for e, v, info in b.variant_edges('core::option::Option') if v == 'None' and q.sem(b, info['place']).kind == 'call' and q.sem(b, info['place']).cs is pr]
